@@ -19,12 +19,15 @@ import (
 	"encoding/json"
 	"flag"
 	"fmt"
+	"net"
+	"net/http"
 	"os"
 	"os/exec"
 	"path/filepath"
 	"strconv"
 	"strings"
 	"sync"
+	"sync/atomic"
 	"time"
 
 	proto "github.com/kubewharf/kubebrain-client/api/v2rpc"
@@ -34,6 +37,7 @@ import (
 	"github.com/kubewharf/kubebrain/pkg/backend/coder"
 	"github.com/kubewharf/kubebrain/pkg/metrics"
 	"github.com/kubewharf/kubebrain/pkg/server/service/leader"
+	"github.com/kubewharf/kubebrain/pkg/server/service/revision"
 	"github.com/kubewharf/kubebrain/pkg/storage"
 	ibadger "github.com/kubewharf/kubebrain/pkg/storage/badger"
 
@@ -721,20 +725,85 @@ func (m *gaugeMetrics) EmitGauge(name string, v interface{}, t ...metrics.T) err
 // SetCurrentRevision (gauge value == committed revision), the version is a reading of the engine clock
 // not older than the acquisition, and the property itself (revisions above the stored maximum, guarded
 // update works, List sees everything). The elector keeps renewing until the process exits.
-func campaignCase(scratch string, hist []hop, tsoOutage bool) *lib.ImplFailure {
+func campaignCase(scratch string, hist []hop, tsoOutage bool, followerRead bool, lateAnswer bool) *lib.ImplFailure {
+	followerRead = followerRead || lateAnswer
 	r := &runner{eng: lib.EngMem}
 	kv, _, err := lib.NewEngine(lib.EngMem, scratch)
 	if err != nil {
 		return &lib.ImplFailure{What: "campaign: engine does not open: " + err.Error()}
 	}
 	r.kv = kv
-	p1 := newProc(1, "A", kv)
+	// followerRead: node B has served follower reads through the real revision syncer (the old leader answers
+	// /status over HTTP), and one more follower read is in flight — past its IsLeader() check, waiting for the old
+	// leader, which has become unreachable — while B wins the election
+	id1 := "A"
+	var hang int32
+	arrived := make(chan struct{}, 8)
+	release := make(chan struct{})
+	var p1 *proc
+	if followerRead {
+		ln, lerr := net.Listen("tcp", "127.0.0.1:0")
+		if lerr != nil {
+			return &lib.ImplFailure{What: "campaign: cannot listen for the old leader's status endpoint: " + lerr.Error()}
+		}
+		id1 = ln.Addr().String()
+		mux := http.NewServeMux()
+		mux.HandleFunc("/status", func(w http.ResponseWriter, req *http.Request) {
+			if atomic.LoadInt32(&hang) == 1 {
+				arrived <- struct{}{}
+				if lateAnswer {
+					// variant: the old leader's answer is merely late (it arrives after B's take-over)
+					time.Sleep(600 * time.Millisecond)
+					_ = json.NewEncoder(w).Encode(revision.LeaderRevision{Revision: p1.b.GetCurrentRevision()})
+					return
+				}
+				select {
+				case <-release:
+				case <-req.Context().Done():
+				}
+				return
+			}
+			_ = json.NewEncoder(w).Encode(revision.LeaderRevision{Revision: p1.b.GetCurrentRevision()})
+		})
+		go func() { _ = http.Serve(ln, mux) }()
+		defer close(release)
+	}
+	p1 = newProc(1, id1, kv)
 	r.elect(p1)
+	p2 := newProc(2, "B", kv)
+	gm := &gaugeMetrics{seen: map[string]interface{}{}}
+	started := make(chan struct{})
+	le := leader.NewLeaderElection(p2.b, gm, func(context.Context) { close(started) }, func() {})
+	syncer := revision.NewRevisionSyncer(p2.b, gm, le, nil)
 	live := map[string]uint64{}
-	for _, o := range hist {
+	var syncedTo uint64
+	for i, o := range hist {
 		o = resolve(o, live)
 		c, h := r.serve(p1, o)
 		track(live, o, c, h)
+		if followerRead && i == 2 {
+			// B, a follower, learns who leads (its elector's Get) and serves a read: revision fetched from the leader
+			if _, gerr := p2.b.GetResourceLock().Get(); gerr != nil {
+				return &lib.ImplFailure{What: "campaign: the follower cannot read the lock: " + gerr.Error()}
+			}
+			if serr := syncer.SyncReadRevision(); serr != nil {
+				return &lib.ImplFailure{What: "campaign: follower read: SyncReadRevision failed although the leader answers: " + serr.Error()}
+			}
+			syncedTo = p2.b.GetCurrentRevision()
+			if syncedTo != p1.b.GetCurrentRevision() {
+				return &lib.ImplFailure{What: fmt.Sprintf("campaign: follower read synced to %d, the leader is at %d", syncedTo, p1.b.GetCurrentRevision())}
+			}
+		}
+	}
+	readDone := make(chan error, 1)
+	if followerRead {
+		atomic.StoreInt32(&hang, 1) // the old leader stops answering
+		go func() { readDone <- syncer.SyncReadRevision() }()
+		select {
+		case <-arrived:
+		case <-time.After(5 * time.Second):
+			return &lib.ImplFailure{What: "campaign: the in-flight follower read never reached the old leader"}
+		}
 	}
 	l1 := p1.b.GetResourceLock()
 	if _, err := l1.Get(); err != nil {
@@ -743,13 +812,8 @@ func campaignCase(scratch string, hist []hop, tsoOutage bool) *lib.ImplFailure {
 	if err := l1.Update(lib.ElRecord("", 50, 1)); err != nil {
 		return &lib.ImplFailure{What: "campaign: releasing the lock failed: " + err.Error()}
 	}
-	lib.ElRetire()
 	_, _, _, maxRev, _ := r.decodedDump()
 	before, _ := kv.GetTimestampOracle(context.Background())
-	p2 := newProc(2, "B", kv)
-	gm := &gaugeMetrics{seen: map[string]interface{}{}}
-	started := make(chan struct{})
-	le := leader.NewLeaderElection(p2.b, gm, func(context.Context) { close(started) }, func() {})
 	// a client that is admitted as soon as IsLeader() says so (the role check of the front-ends) and at once
 	// issues a guarded Update of a pre-existing key and a Create: the flag must imply an installed base
 	type early struct {
@@ -826,6 +890,24 @@ func campaignCase(scratch string, hist []hop, tsoOutage bool) *lib.ImplFailure {
 		return &lib.ImplFailure{What: "campaign: stalled after the early requests"}
 	}
 	v := p2.b.GetCurrentRevision() - 2 // two requests have been served since SetCurrentRevision(version)
+	if followerRead {
+		select {
+		case <-readDone: // on the unchanged tree: an error (the leader did not answer within the syncer's time-out)
+		case <-time.After(5 * time.Second):
+			return &lib.ImplFailure{What: "campaign: the in-flight follower read did not return"}
+		}
+		if now := p2.b.GetCurrentRevision(); now < v+2 {
+			code := 0
+			if lateAnswer {
+				code = 2 // finding C15-F2: the old leader's answer was late, not lost
+			}
+			return &lib.ImplFailure{Code: code, What: fmt.Sprintf("campaign: a follower read that was in flight across the election moved the new leader's revision backwards: SetCurrentRevision(%d) at take-over, %d after two requests, now %d (the follower had synced to %d earlier); stored maximum %d",
+				v, v+2, now, syncedTo, maxRev),
+				Case: map[string]interface{}{"engine": "memkv", "old_leader_history": hist, "follower_synced_after_request": 3, "follower_synced_to": syncedTo,
+					"then":              "old leader stops answering /status; a follower read (SyncReadRevision) is in flight; old leader releases the lock; B runs the real Campaign()",
+					"version_installed": v, "revision_now": now, "max_stored_revision": maxRev}}
+		}
+	}
 	js := map[string]interface{}{"history": hist, "max_stored_revision": maxRev, "version": v, "clock_before": before, "clock_after": after, "early_update_rev": ea.updRev, "early_create_rev": ea.creRev}
 	gm.mu.Lock()
 	gv, ok := gm.seen["leader.election.initial.version"].(uint64)
@@ -868,12 +950,18 @@ func f1Witness() []hop {
 // runCampaignChild runs campaignCase in a child process: Campaign() never returns, its elector keeps
 // renewing, and OnStoppedLeading ends the process through klog.Fatal — the child prints its verdict and
 // exits at once without ever cancelling the elector; the parent only reads the verdict.
-func runCampaignChild(scratch string, tsoOutage bool) (string, *lib.ImplFailure) {
+func runCampaignChild(scratch string, tsoOutage bool, followerRead bool, lateAnswer bool) (string, *lib.ImplFailure) {
 	ctx, cancel := context.WithTimeout(context.Background(), 60*time.Second)
 	defer cancel()
 	cargs := []string{"-campaign-child", "-scratch", scratch}
 	if tsoOutage {
 		cargs = append(cargs, "-campaign-tso-outage")
+	}
+	if followerRead {
+		cargs = append(cargs, "-campaign-follower-read")
+	}
+	if lateAnswer {
+		cargs = append(cargs, "-campaign-late-answer")
 	}
 	cmd := exec.CommandContext(ctx, os.Args[0], cargs...)
 	cmd.Stderr = nil
@@ -900,9 +988,11 @@ func main() {
 	lib.ElInstallHook()
 	child := flag.Bool("campaign-child", false, "internal: run the real Campaign() once and print the verdict")
 	childOutage := flag.Bool("campaign-tso-outage", false, "internal: with a timestamp-oracle outage right after the elector's lock write")
+	childFollower := flag.Bool("campaign-follower-read", false, "internal: with a follower read in flight across the election")
+	childLate := flag.Bool("campaign-late-answer", false, "internal: the old leader's answer to the in-flight follower read arrives after the take-over")
 	args := lib.ParseArgs()
 	if *child {
-		f := campaignCase(args.Scratch, f1Witness(), *childOutage)
+		f := campaignCase(args.Scratch, f1Witness(), *childOutage, *childFollower, *childLate)
 		b, _ := json.Marshal(map[string]interface{}{"ok": f == nil, "fail": f})
 		fmt.Printf("\nCAMPAIGN-VERDICT %s\n", b)
 		os.Stdout.Sync()
@@ -975,13 +1065,17 @@ func main() {
 		s string
 		f *lib.ImplFailure
 	}
-	ch1, ch2 := make(chan cres, 1), make(chan cres, 1)
-	go func() { s, f := runCampaignChild(args.Scratch, false); ch1 <- cres{s, f} }()
-	go func() { s, f := runCampaignChild(args.Scratch, true); ch2 <- cres{s, f} }()
+	ch1, ch2, ch3, ch4 := make(chan cres, 1), make(chan cres, 1), make(chan cres, 1), make(chan cres, 1)
+	go func() { s, f := runCampaignChild(args.Scratch, false, false, false); ch1 <- cres{s, f} }()
+	go func() { s, f := runCampaignChild(args.Scratch, true, false, false); ch2 <- cres{s, f} }()
+	go func() { s, f := runCampaignChild(args.Scratch, false, true, false); ch3 <- cres{s, f} }()
+	go func() { s, f := runCampaignChild(args.Scratch, false, true, true); ch4 <- cres{s, f} }()
 	campaign := ""
-	for k, ch := range []chan cres{ch1, ch2} {
+	for k, ch := range []chan cres{ch1, ch2, ch3, ch4} {
 		c := <-ch
-		label := []string{"plain: ", "with a timestamp-oracle outage right after the elector's lock write: "}[k]
+		label := []string{"plain: ", "with a timestamp-oracle outage right after the elector's lock write: ",
+			"with a follower read (real revision syncer, old leader unreachable) in flight across the election: ",
+			"with a follower read in flight whose answer from the old leader arrives after the take-over (witness of finding C15-F2): "}[k]
 		if c.f != nil {
 			c.f.CaseID = len(cases)
 			c.f.What = label + c.f.What
